@@ -327,3 +327,131 @@ Proof.
   repeat split; vm_compute; tauto.
 Qed.
 Print Assumptions C02_generated_dispatch_consults_only_modelled_inputs.
+
+(* ---- generated from poorwsgi/wsgi.py by harness/py2v_route.py (gen/
+   RouteGen.v, regenerated on every run): the route-pattern compiler.  The
+   pattern text of re_filter, the built-in filter table (names, regex texts,
+   converters, in dict order), every operation of Application.__regex /
+   __converter / set_filter with its operands, order, constants, caught and
+   raised exception classes and the pieces of the format text, and the
+   compile step of set_route / pop_route / is_route (the test, the callback
+   of sub, the appended "\Z", the element expressions of the converters
+   tuple, what is handed on) are taken from the syntax.  Primitives
+   (lib/PyRoute.v): the Python string operations and the regular-expression
+   engine over re_filter, modelled as "scan the uri into literal characters
+   and groups" = [scan_uri]. *)
+Require Import PW.lib.PyRoute PW.gen.RouteGen PW.proofs.RouteGenEq.
+
+(* the source's re_filter is the pattern [scan_uri] implements, and the
+   table Application.__init__ creates is the model's [init_filters] *)
+Theorem C02_generated_builtin_filters_are_model :
+  gen_re_filter_pattern = re_filter_pattern /\
+  gen_init_filters = init_filters /\
+  a_filters init_app = gen_init_filters.
+Proof.
+  exact (conj gen_re_filter_pattern_is_model
+              (conj gen_init_filters_is_model
+                    (eq_sym gen_init_filters_is_model))).
+Qed.
+Print Assumptions C02_generated_builtin_filters_are_model.
+
+(* __regex on the groups (name, filter spec) of a hit, for every filter
+   table: the text [compile_parts] puts in for the group -- "(?P<" name ">"
+   regex ")" with the regex of the table, the text after ":re:" as written,
+   or RuntimeError for an unknown filter *)
+Theorem C02_generated_group_regex_is_model :
+  forall F nm filt,
+    gen_regex F (RS nm) (opt_rv filt) =
+    match regex_of F filt with
+    | Ok rx => Ok (RS (s2l "(?P<" ++ nm ++ [62] ++ rx ++ [41]))
+    | Raised e => Raised e
+    end /\
+    forall ps,
+      compile_parts F (PGrp nm filt :: ps) =
+      match gen_regex F (RS nm) (opt_rv filt) with
+      | Ok piece =>
+          match compile_parts F ps with
+          | Ok t => Ok ((match piece with RS s => s | RN => [] end) ++ t)
+          | Raised e => Raised e
+          end
+      | Raised e => Raised e
+      end.
+Proof. exact gen_regex_in_compile_parts. Qed.
+Print Assumptions C02_generated_group_regex_is_model.
+
+(* the compile step of set_route / pop_route / is_route, for every uri and
+   filter table: the test is "some part of the scanned uri is a group"; the
+   text (sub with __regex, then "\Z") is the model's [compile_text]; in
+   set_route the converters tuple (name, __converter(spec)) by position is
+   the model's [converters], computed after the text; the text, fun, method,
+   the converters and the uri are what is handed to set_regular_route *)
+Theorem C02_generated_route_text_is_model :
+  forall U F uri,
+    (gen_set_route_test U uri = has_group (scan_uri U uri) /\
+     gen_pop_route_test U uri = has_group (scan_uri U uri) /\
+     gen_is_route_test U uri = has_group (scan_uri U uri)) /\
+    gen_set_route_compile U F uri =
+      match compile_text U F uri with
+      | Ok text =>
+          match converters F (scan_uri U uri) with
+          | Ok cvs => Ok (RS text, map (fun p => (RS (fst p), snd p)) cvs)
+          | Raised e => Raised e
+          end
+      | Raised e => Raised e
+      end /\
+    gen_pop_route_compile U F uri =
+      match compile_text U F uri with
+      | Ok t => Ok (RS t) | Raised e => Raised e end /\
+    gen_is_route_compile U F uri =
+      match compile_text U F uri with
+      | Ok t => Ok (RS t) | Raised e => Raised e end /\
+    gen_set_route_args =
+      [A_rv 1; A_param 2; A_param 3; A_convs 2; A_param 1] /\
+    gen_pop_route_args = [A_rv 1; A_param 2] /\
+    gen_is_route_args = [A_rv 1].
+Proof.
+  intros U F uri.
+  exact (conj (gen_route_test_is_model U uri)
+          (conj (gen_set_route_compile_is_model U F uri)
+            (conj (proj1 (gen_route_text_is_model U F uri))
+              (conj (proj2 (gen_route_text_is_model U F uri))
+                    gen_route_args_are_model)))).
+Qed.
+Print Assumptions C02_generated_route_text_is_model.
+
+(* __converter on a filter spec is the model's [conv_of] (the spec lowered,
+   every ":re:..." spec read as ":re:", RuntimeError for an unknown one) *)
+Theorem C02_generated_converter_is_model :
+  forall F filt, gen_converter F (opt_rv filt) = conv_of F filt.
+Proof. exact gen_converter_is_model. Qed.
+Print Assumptions C02_generated_converter_is_model.
+
+(* set_filter(name, regex, converter) on str arguments is the model's
+   [set_filter] (IndexError for the empty name, ":" put in front unless
+   already there, the record stored under that name); default converter str *)
+Theorem C02_generated_set_filter_is_model :
+  (forall F name rx cv,
+     gen_set_filter F (RS name) (RS rx) cv = set_filter F name rx cv) /\
+  gen_set_filter_default_3 = CStr.
+Proof. exact (conj gen_set_filter_is_model gen_set_filter_default_is_model). Qed.
+Print Assumptions C02_generated_set_filter_is_model.
+
+(* the model's [set_route] is: the generated test, then the generated
+   compile step, then set_regular_route on what the step hands on (text,
+   fun, method, converters, rule = the uri); a failing step leaves the
+   tables alone; without a group the static table is written *)
+Theorem C02_generated_set_route_compile_is_model :
+  forall U a uri f mask,
+    set_route U a uri f mask =
+    if gen_set_route_test U uri then
+      match gen_set_route_compile U (a_filters a) uri with
+      | Ok (text, cvs) =>
+          set_regular a (rv_text text) f mask (map unnamed cvs) (Some uri)
+      | Raised e => Raised e
+      end
+    else
+      let mt := match lget uri (a_static a) with Some m => m | None => [] end in
+      Ok (mkApp (lset uri (fan mask f meths mt) (a_static a)) (a_pats a)
+                (a_defaults a) (a_filters a)).
+Proof. exact set_route_via_generated. Qed.
+Print Assumptions C02_generated_set_route_compile_is_model.
